@@ -8,6 +8,7 @@ from warnings import warn
 # Third-party
 # ---------------------------------------------------------------------------
 from pysat.formula import WCNF
+from pysmt.shortcuts import Solver
 
 from inference.conditional import Conditional
 from inference.consistency_sat import consistency_indices
@@ -77,6 +78,18 @@ class SystemW(Inference):
                 wcnf, len(self.epistemic_state["partition"]) - 1, deadline
             )
         else:
+            if len(self.epistemic_state["partition"]) < 2:
+                # no finite layer: all feasible worlds are equally plausible, so the
+                # query holds only if no feasible world falsifies it
+                contra_solver = Solver(name=self.epistemic_state["smt_solver"])
+                contra_solver.add_assertion(query.make_A_then_not_B())
+                for index in self.epistemic_state["partition"][-1]:
+                    contra_solver.add_assertion(
+                        self.epistemic_state["belief_base"]
+                        .conditionals[index]
+                        .make_not_A_or_B()
+                    )
+                return not contra_solver.solve()
             # all indices in the last partition
             for index in self.epistemic_state["partition"][-1]:
                 [wcnf.append(c) for c in self.epistemic_state["nf_cnf_dict"][index]]
